@@ -1,4 +1,4 @@
-(* Line-protocol driver around the extracted models: one request per line, one reply per line. *)
+(* request handlers of the glob model driver *)
 open Model
 open Conv
 
@@ -19,14 +19,4 @@ let handle (toks : string list) : string =
   | ["decode_rune"; s] ->
       let (r, n) = decode_rune (bytes_of_hex s) in
       Printf.sprintf "%d %d" (int_of_n r) (int_of_nat n)
-  | _ -> (match Driver_ext.handle toks with Some r -> r | None -> "?unknown")
-
-let () =
-  try
-    while true do
-      let line = input_line stdin in
-      let toks = List.filter (fun s -> s <> "") (String.split_on_char ' ' line) in
-      let out = try handle toks with e -> "!exn " ^ Printexc.to_string e in
-      print_string out; print_char '\n'; flush stdout
-    done
-  with End_of_file -> ()
+  | _ -> "?unknown"
